@@ -75,6 +75,27 @@ def injections(rng, toks, defs, tier):
     lib_dup = "pragma circom 2.0.0;\ntemplate DupT() { signal input a; signal output b; b <== a; }\n"
     top_dup = (base + "template DupT() { signal input a; signal output b; b <== a * a; }\n").replace(";\n", ";\ninclude \"lib_dup.circom\";\n", 1)
     out.append(("duplicate-template-named-and-included-file", None, {"main.circom": top_dup, "lib_dup.circom": lib_dup}, ["main.circom"]))
+    # a function and a template with the same name (one of them is dropped), with and without a main component, in one file and across two
+    dup_x = "function DupX(a) { return a; }\ntemplate DupX() { signal input a; signal output b; b <== a; }\n"
+    out.append(("duplicate-function-template-no-main", None, {"main.circom": "pragma circom 2.0.0;\n" + dup_x}, ["main.circom"]))
+    out.append(("duplicate-template-function-no-main", None, {"main.circom": "pragma circom 2.0.0;\ntemplate DupY() { signal input a; signal output b; b <== a; }\nfunction DupY(a) { return a; }\n"}, ["main.circom"]))
+    out.append(("duplicate-function-template-with-main", None, {"main.circom": base + dup_x}, ["main.circom"]))
+    out.append(("duplicate-function-template-two-files", None,
+                {"main.circom": "pragma circom 2.0.0;\nfunction DupZ(a) { return a; }\n", "second.circom": "pragma circom 2.0.0;\ntemplate DupZ() { signal input a; signal output b; b <== a; }\n"},
+                ["main.circom", "second.circom"]))
+    # definitions the tool has to drop because of how they use a template that lives in an included file which is NOT named on the
+    # command line: the error belongs to the named file (seeded C02 m5: a report anchored in the library would be filtered out)
+    lib_ok = ("pragma circom 2.0.0;\ntemplate LibT(n) { signal input in; signal output out; out <== in * n; }\n"
+              "template LibV() { signal input a; signal input b; signal output o1; signal output o2; o1 <== a; o2 <== a * b; }\n")
+    top_ok = lambda body: {"main.circom": (base + body).replace(";\n", ";\ninclude \"lib_ok.circom\";\n", 1), "lib_ok.circom": lib_ok}
+    for nm, body in (
+            ("anon-too-many-inputs", "template BadL1() { signal input i; signal output o; o <== LibT(1)(i, i, i); }\n"),
+            ("anon-too-few-inputs", "template BadL2() { signal input i; signal output o; signal output p; (o, p) <== LibV()(i); }\n"),
+            ("anon-unknown-input-name", "template BadL3() { signal input i; signal output o; o <== LibT(1)(nosuch <== i); }\n"),
+            ("anon-missing-named-input", "template BadL4() { signal input i; signal output o; signal output p; (o, p) <== LibV()(a <== i); }\n"),
+            ("anon-output-arity", "template BadL5() { signal input i; signal output o; signal output p; (o, p) <== LibT(1)(i); }\n"),
+            ("anon-in-loop-too-many-inputs", "template BadL6() { signal input i; signal output o[2]; for (var k = 0; k < 2; k++) { o[k] <== LibT(k)(i, i); } }\n")):
+        out.append(("library-template-%s" % nm, None, top_ok(body), ["main.circom"]))
     for nm, lib in (("syntax", lib_syntax), ("collision", lib_collision)):
         out.append(("named-and-included-%s-lib-first" % nm, None, {"main.circom": top, "lib_bad.circom": lib}, ["lib_bad.circom", "main.circom"]))
         out.append(("named-and-included-%s-lib-last" % nm, None, {"main.circom": top, "lib_bad.circom": lib}, ["main.circom", "lib_bad.circom"]))
